@@ -17,8 +17,8 @@ from sim.trace import EventLog, canon, ddmin
 CASE_TIMEOUT = 900
 LEVEL = {"C16": "exploration"}
 PLAN = {"C16": {
-    "quick": {"runs": 1100, "wall_cap": 115, "chunk": 8, "selftest": 6},
-    "thorough": {"runs": 30000, "wall_cap": 1500, "chunk": 16, "selftest": 30},
+    "quick": {"runs": 6000, "wall_cap": 115, "chunk": 25, "selftest": 6},
+    "thorough": {"runs": 200000, "wall_cap": 1700, "chunk": 50, "selftest": 30},
 }}
 RULE = {"C16": (
     "one evaluation = one seeded run: one shared optimizer object (string preset auto / auto-hq / greedy / optimal / "
